@@ -235,7 +235,14 @@ func (w *c13World) lockReturns(p *kernel.Parked) {
 		sb.heldAt = s.Now()
 	}
 	if sb := w.byName[kernel.RootOf(p.Party)]; sb != nil && (sb.phase == phRetry || sb.phase == phEither) {
-		if l := maxDur(s.Now(), w.J) + capBackoff + capJitter; l > sb.L {
+		// what the client computes after the hold it computes from now - and if the hold stood in front of the
+		// bookkeeping of its own last outcome, that is now + that outcome's Retry-After, which may exceed the cap
+		// (Retry-After 129 s, held for two minutes, attempt 82 ms "late": false alarm found by the thorough tier)
+		own := capBackoff
+		if sb.E >= 0 && sb.E-sb.T > own {
+			own = sb.E - sb.T
+		}
+		if l := maxDur(s.Now(), w.J) + own + capJitter; l > sb.L {
 			sb.L = l
 		}
 	}
